@@ -24,11 +24,10 @@ import (
 // Cold start: whatever a package initialises lazily happens on the first call, once per process, so the interleavings
 // of *first* calls can only be sampled in fresh processes. TestC17ColdStart re-executes this test binary; each child
 // lets 16 goroutines meet at a spin barrier and make the process's first calls into the writer package together.
-// Every goroutine works on keys of its own, so each call has exactly one answer that every sequential order of the
-// same calls gives (the first call of any order completes the lazy initialisation before anything else happens):
-//   - looking up / writing with a built-in format nobody re-registers succeeds;
-//   - after `RegisterSerializer(k, d)` by the only goroutine touching k, a final lookup of k returns d;
-//   - after `UnregisterSerializer(k)` by the only goroutine touching k, a final lookup of k fails.
+// Every goroutine works on keys of its own, so every sequential order of the same calls gives each call the same
+// answer and leaves the same final registry. The oracle is differential: a second fresh process makes the same calls
+// one after the other, and the concurrent process must report exactly what the sequential one reports (per call:
+// succeeded or not; per key afterwards: the driver registered during the run, a built-in driver, or nothing).
 const coldChildEnv = "VERIF_C17_COLD_CHILD"
 
 func init() {
@@ -37,16 +36,13 @@ func init() {
 	if v == "" {
 		return
 	}
-	scenario, _ := strconv.Atoi(v)
-	if msgs := coldStartChild(scenario); len(msgs) > 0 {
-		fmt.Println("COLD-START-VIOLATION scenario=" + v + ": " + strings.Join(msgs, " ;; "))
-		os.Exit(3)
-	}
-	fmt.Println("COLD-START-OK")
+	sequential := strings.HasPrefix(v, "seq:")
+	scenario, _ := strconv.Atoi(strings.TrimPrefix(v, "seq:"))
+	fmt.Println("COLD-START-RESULT " + strings.Join(coldStartChild(scenario, sequential), " ;; "))
 	os.Exit(0)
 }
 
-func coldStartChild(scenario int) []string {
+func coldStartChild(scenario int, sequential bool) []string {
 	const ng = 16
 	builtins := []formats.Format{formats.CDX10JSON, formats.CDX11JSON, formats.CDX12JSON, formats.CDX13JSON, formats.CDX14JSON, formats.CDX15JSON, formats.SPDX23JSON}
 	// rotate the roles over keys and goroutines with the scenario number
@@ -57,63 +53,67 @@ func coldStartChild(scenario int) []string {
 	custom := []*sdrivers.SPDX23{sdrivers.NewSPDX23(), sdrivers.NewSPDX23()}
 	docs := c17Docs()
 
-	var mu sync.Mutex
-	var msgs []string
-	fail := func(f string, a ...any) { mu.Lock(); msgs = append(msgs, fmt.Sprintf(f, a...)); mu.Unlock() }
+	results := make([]string, ng) // one line per call: what it returned
 	var arrived int32
-	var wg sync.WaitGroup
-	for g := 0; g < ng; g++ {
-		wg.Add(1)
-		go func(g int) {
-			defer wg.Done()
-			defer func() {
-				if p := recover(); p != nil {
-					fail("g%d panicked: %v", g, p)
-				}
-			}()
-			role := (g + scenario) % ng
+	call := func(g int) {
+		defer func() {
+			if p := recover(); p != nil {
+				results[g] = fmt.Sprintf("call %d panicked: %v", g, p)
+			}
+		}()
+		role := (g + scenario) % ng
+		if !sequential {
 			atomic.AddInt32(&arrived, 1)
 			for atomic.LoadInt32(&arrived) < ng {
 				runtime.Gosched()
 			}
-			switch {
-			case role < 2:
-				writer.RegisterSerializer(regKeys[role], custom[role])
-			case role == 2:
-				writer.UnregisterSerializer(unregKey)
-			case role%2 == 1 || free[role%len(free)] == formats.CDX10JSON || free[role%len(free)] == formats.CDX11JSON:
-				// (CycloneDX 1.0 / 1.1 have no JSON encoding: those drivers are looked up, not written with)
-				f := free[role%len(free)]
-				if s, err := writer.GetFormatSerializer(f); err != nil || s == nil {
-					fail("g%d: first-call lookup of the built-in format %s failed: %v", g, f, err)
-				}
-			default:
-				f := free[role%len(free)]
-				var buf bytes.Buffer
-				w := writer.New(writer.WithFormat(f))
-				if err := w.WriteStream(docs[g%len(docs)], nopCloser{&buf}); err != nil {
-					fail("g%d: first-call write in the built-in format %s failed: %v", g, f, err)
-				} else if !json.Valid(buf.Bytes()) {
-					fail("g%d: first-call write in %s produced invalid JSON", g, f)
-				}
-			}
-		}(g)
-	}
-	wg.Wait()
-	for i, k := range regKeys {
-		if s, err := writer.GetFormatSerializer(k); err != nil || s != native.Serializer(custom[i]) {
-			fail("driver registered for %s during the first calls is not the one looked up afterwards (err=%v): lost to the lazy initialisation", k, err)
+		}
+		switch {
+		case role < 2:
+			writer.RegisterSerializer(regKeys[role], custom[role])
+			results[g] = fmt.Sprintf("call %d: RegisterSerializer(%s, driver#%d) returned", g, regKeys[role], role)
+		case role == 2:
+			writer.UnregisterSerializer(unregKey)
+			results[g] = fmt.Sprintf("call %d: UnregisterSerializer(%s) returned", g, unregKey)
+		case role%2 == 1 || free[role%len(free)] == formats.CDX10JSON || free[role%len(free)] == formats.CDX11JSON:
+			// (CycloneDX 1.0 / 1.1 have no JSON encoding: those drivers are looked up, not written with)
+			f := free[role%len(free)]
+			s, err := writer.GetFormatSerializer(f)
+			results[g] = fmt.Sprintf("call %d: GetFormatSerializer(%s) found=%v error=%v", g, f, s != nil, err != nil)
+		default:
+			f := free[role%len(free)]
+			var buf bytes.Buffer
+			err := writer.New(writer.WithFormat(f)).WriteStream(docs[g%len(docs)], nopCloser{&buf})
+			results[g] = fmt.Sprintf("call %d: New(WithFormat(%s)).WriteStream error=%v valid_json=%v", g, f, err != nil, json.Valid(buf.Bytes()))
 		}
 	}
-	if s, err := writer.GetFormatSerializer(unregKey); err == nil {
-		fail("format %s was unregistered during the first calls but a lookup afterwards returns a driver (%T)", unregKey, s)
-	}
-	for _, f := range free {
-		if _, err := writer.GetFormatSerializer(f); err != nil {
-			fail("built-in format %s is not registered after the first calls: %v", f, err)
+	if sequential {
+		for g := 0; g < ng; g++ {
+			call(g)
 		}
+	} else {
+		var wg sync.WaitGroup
+		for g := 0; g < ng; g++ {
+			wg.Add(1)
+			go func(g int) { defer wg.Done(); call(g) }(g)
+		}
+		wg.Wait()
 	}
-	return msgs
+	// the registry afterwards
+	for _, k := range builtins {
+		s, err := writer.GetFormatSerializer(k)
+		state := "a built-in driver"
+		switch {
+		case err != nil || s == nil:
+			state = "nothing"
+		case s == native.Serializer(custom[0]):
+			state = "driver#0 (registered during the run)"
+		case s == native.Serializer(custom[1]):
+			state = "driver#1 (registered during the run)"
+		}
+		results = append(results, fmt.Sprintf("afterwards: %s -> %s", k, state))
+	}
+	return results
 }
 
 func TestC17ColdStart(t *testing.T) {
@@ -141,19 +141,41 @@ func TestC17ColdStart(t *testing.T) {
 			defer wg.Done()
 			defer func() { <-sem }()
 			scenario := seed*131 + i
-			cmd := exec.Command(exe, "-test.run", "^$")
-			cmd.Env = append(os.Environ(), coldChildEnv+"="+strconv.Itoa(scenario), "VERIF_STATS=", "VERIF_JOURNAL=")
-			out, err := cmd.CombinedOutput()
+			run := func(mode string) (string, string, error) {
+				cmd := exec.Command(exe, "-test.run", "^$")
+				cmd.Env = append(os.Environ(), coldChildEnv+"="+mode+strconv.Itoa(scenario), "VERIF_STATS=", "VERIF_JOURNAL=")
+				out, err := cmd.CombinedOutput()
+				for _, ln := range strings.Split(string(out), "\n") {
+					if strings.HasPrefix(ln, "COLD-START-RESULT ") {
+						return strings.TrimPrefix(ln, "COLD-START-RESULT "), string(out), err
+					}
+				}
+				return "", string(out), err
+			}
+			want, sout, serr := run("seq:")
+			got, cout, cerr := run("")
 			hx.Eval()
 			hx.NonTrivial(hx.Digest("cold", scenario))
 			switch {
-			case strings.Contains(string(out), "COLD-START-OK") && err == nil:
-			case strings.Contains(string(out), "COLD-START-VIOLATION") || strings.Contains(string(out), "DATA RACE") || strings.Contains(string(out), "fatal error"):
+			case want == "" || serr != nil:
+				t.Errorf("HARNESS-SELFTEST the sequential reference process of scenario %d ended unexpectedly (%v): %s", scenario, serr, trunc(sout, 600))
+			case strings.Contains(cout, "DATA RACE") || strings.Contains(cout, "fatal error"):
 				mu.Lock()
-				bad = append(bad, fmt.Sprintf("scenario %d: %s", scenario, trunc(string(out), 1500)))
+				bad = append(bad, fmt.Sprintf("scenario %d: %s", scenario, trunc(cout, 1500)))
 				mu.Unlock()
-			default:
-				t.Errorf("HARNESS-SELFTEST cold-start child %d ended unexpectedly (%v): %s", scenario, err, trunc(string(out), 600))
+			case got == "" || cerr != nil:
+				t.Errorf("HARNESS-SELFTEST the concurrent process of scenario %d ended unexpectedly (%v): %s", scenario, cerr, trunc(cout, 600))
+			case got != want:
+				var diff []string
+				w, g := strings.Split(want, " ;; "), strings.Split(got, " ;; ")
+				for k := range w {
+					if k < len(g) && g[k] != w[k] {
+						diff = append(diff, fmt.Sprintf("concurrently {%s}, in every sequential order {%s}", g[k], w[k]))
+					}
+				}
+				mu.Lock()
+				bad = append(bad, fmt.Sprintf("scenario %d: %s", scenario, strings.Join(diff, "; ")))
+				mu.Unlock()
 			}
 		}(i)
 	}
